@@ -175,6 +175,79 @@ func (c *Ctx) runParenSiblings(r *Report, rule string, pkgs func(string) bool) {
 	r.inst("parens.siblings", n)
 }
 
+// parens.bakedonly (C04): a paren predicate may answer "the child is written as
+// a name, no parentheses needed" only from the writer's own record of names it
+// has already emitted (a field of the writer). The IR's table of named
+// expressions says that the expression gets a name at its Emit statement, not
+// that it is a name where it is being written now: an expression used before
+// its Emit has been written (the continuing block of a loop is written before
+// the body) is re-expanded inline and needs its parentheses.
+func (c *Ctx) runParenBakedOnly(r *Report, rule string, pkgs func(string) bool) {
+	n := 0
+	preds := c.parenPredicates(pkgs)
+	var rels []string
+	for rel := range preds {
+		rels = append(rels, rel)
+	}
+	sort.Strings(rels)
+	for _, rel := range rels {
+		for _, p := range preds[rel] {
+			info := p.fn.Pkg.Info
+			ord := map[string]int{}
+			ast.Inspect(p.fn.Decl.Body, func(m ast.Node) bool {
+				ifs, ok := m.(*ast.IfStmt)
+				if !ok {
+					return true
+				}
+				as, ok := ifs.Init.(*ast.AssignStmt)
+				if !ok || len(as.Rhs) != 1 {
+					return true
+				}
+				ix, ok := ast.Unparen(as.Rhs[0]).(*ast.IndexExpr)
+				if !ok {
+					return true
+				}
+				se, ok := ast.Unparen(ix.X).(*ast.SelectorExpr)
+				if !ok {
+					return true
+				}
+				fld, ok := info.Uses[se.Sel].(*types.Var)
+				if !ok || !fld.IsField() || fld.Pkg() == nil {
+					return true
+				}
+				if _, isMap := fld.Type().Underlying().(*types.Map); !isMap {
+					return true
+				}
+				retFalse := false
+				for _, st := range ifs.Body.List {
+					if rs, ok := st.(*ast.ReturnStmt); ok && len(rs.Results) == 1 {
+						if id, ok := rs.Results[0].(*ast.Ident); ok && id.Name == "false" {
+							retFalse = true
+						}
+					}
+				}
+				if !retFalse {
+					return true
+				}
+				n++
+				key := p.fn.id() + ":" + noSpace(types.ExprString(ix.X))
+				ord[key]++
+				cons := key
+				if ord[key] > 1 {
+					cons += "#" + itoa(ord[key])
+				}
+				if strings.HasSuffix(fld.Pkg().Path(), "/ir") {
+					r.viol(rule, cons, c.pos(ifs.Pos()), p.fn.id()+" concludes from the IR table "+types.ExprString(ix.X)+" that the child is written as a name and needs no parentheses; the IR only says the expression is named at its Emit - where it is used before that Emit has been written (the continuing block precedes the loop body) it is expanded inline: acc * sum with let sum = a + b becomes acc * a + b")
+				} else {
+					r.ok(rule, cons, c.pos(ifs.Pos()), "")
+				}
+				return true
+			})
+		}
+	}
+	r.inst("parens.bakedonly", n)
+}
+
 func init() {
 	dumpers["parens"] = func(c *Ctx, parts []string) {
 		for rel, ps := range c.parenPredicates(func(string) bool { return true }) {
@@ -192,6 +265,7 @@ func init() {
 			}
 		}
 		r := newReport("dump")
+		c.runParenBakedOnly(r, "parens.bakedonly", func(string) bool { return true })
 		c.runParenSiblings(r, "parens.siblings", func(string) bool { return true })
 		for _, o := range r.Obs {
 			println(o.Verdict, o.Construct, o.Pos, o.Msg)
